@@ -57,6 +57,7 @@ type Result struct {
 	Failures []Failure `json:"failures"` // direct property failures (monitor)
 	Notes    []string  `json:"notes,omitempty"`
 	Millis   int64     `json:"ms"`
+	Skipped  bool      `json:"skipped,omitempty"`
 }
 
 type Failure struct {
